@@ -338,24 +338,61 @@ example : ValidSym (DSymData.ofSimple ex2) ∧ 1 ≤ (DSymData.ofSimple ex2).dim
 /-- `SRel ds` = the relators of `SpecC09.textbook (gOf ds)` — what the driver builds from the
     symbol's tables: breadth-first spanning tree from chamber 1, pairing relators for `d ≤ s_i d`,
     one 2-orbit relator per least chamber of the orbit — on generators `1 … size·(dim+1)`.
-    For a connected valid symbol whose breadth-first tree has `size − 1` facets (the Spec's own
-    connectedness test `connectedBfs`, evaluated on every input) it presents `TGroup ds`:
+    For every connected valid symbol it presents `TGroup ds`, hence the group the model returns:
     (a) 2-orbit relators at other chambers of an orbit are conjugates of the kept one or of its
-    inverse modulo the pairing relators (`grel_base`), (b) two ordered spanning trees give
+    inverse modulo the pairing relators (`grel_base`); (b) two ordered spanning trees give
     isomorphic groups (`treeIso`: `x(c,a) ↦ q(c)·x(c,a)·q(s_a c)⁻¹` with the tree path products `q`;
-    the two composites are inner automorphisms).  Together with §9 the invariants the Spec
-    computes from its textbook presentation are invariants of the group the model returns. -/
+    the two composites are inner automorphisms); both the code's `spanning_tree` and the Spec's
+    breadth-first tree are ordered spanning trees (`spanningTree_spanning`, `spanTree_otree`,
+    `spanTree_length`: the Spec's connectedness test `connectedBfs` holds on connected symbols). -/
 theorem spec_textbook_presents_TGroup (ds : DSymData) (hs : ValidSym ds) (hdim : 1 ≤ ds.dim)
-    (hsize : 1 ≤ ds.size) (hc : ds.view.isConnected = true)
-    (hbfs : (SpecC09.spanTree (gOf ds)).length + 1 = ds.size) :
+    (hsize : 1 ≤ ds.size) (hc : ds.view.isConnected = true) :
+    (SpecC09.spanTree (gOf ds)).length + 1 = ds.size ∧
     Nonempty (PresentedGroup (SRel ds) ≃* TGroup ds) ∧
     ∀ f, fundamentalGroup ds = .ok f → Nonempty (PresentedGroup (SRel ds) ≃* MGroup f) := by
-  refine ⟨⟨specTextbookIso hs hsize hc hbfs⟩, fun f hf => ?_⟩
+  have hbfs := spanTree_length hs.set hsize hc
+  refine ⟨hbfs, ⟨specTextbookIso hs hsize hc hbfs⟩, fun f hf => ?_⟩
   exact ⟨(specTextbookIso hs hsize hc hbfs).trans (presIso hs hdim hf)⟩
 
 example : ValidSym (DSymData.ofSimple ex2) ∧ 1 ≤ (DSymData.ofSimple ex2).dim ∧
-    1 ≤ (DSymData.ofSimple ex2).size ∧ (DSymData.ofSimple ex2).view.isConnected = true ∧
-    (SpecC09.spanTree (gOf (DSymData.ofSimple ex2))).length + 1 = (DSymData.ofSimple ex2).size :=
-  ⟨ex2_validSym, by decide, by decide, by decide +kernel, by decide +kernel⟩
+    1 ≤ (DSymData.ofSimple ex2).size ∧ (DSymData.ofSimple ex2).view.isConnected = true :=
+  ⟨ex2_validSym, by decide, by decide, by decide +kernel⟩
+
+/-! ## 11. `SpecC09.simplify` preserves the presented group -/
+
+/-- `simplify` (cyclic reduction of all relators, repeated elimination of a generator that occurs
+    exactly once in a relator, renumbering of the remaining generators) is a sequence of Tietze
+    moves: for every presentation whose letters are generators `±1 … ±n` the simplified
+    presentation presents an isomorphic group. -/
+theorem simplify_preserves_group (p : SpecC09.Pres)
+    (h : ∀ w ∈ p.rels, ∀ z ∈ w, z ≠ 0 ∧ z.natAbs ≤ p.ngens) :
+    Nonempty (PresentedGroup (MRel p.ngens p.rels) ≃*
+      PresentedGroup (MRel (SpecC09.simplify p).ngens (SpecC09.simplify p).rels)) :=
+  simplify_iso p h
+
+example : ∀ w ∈ (⟨2, [[1, 2, -1, -2]]⟩ : SpecC09.Pres).rels, ∀ z ∈ w,
+    z ≠ 0 ∧ z.natAbs ≤ (⟨2, [[1, 2, -1, -2]]⟩ : SpecC09.Pres).ngens := by decide
+
+/-- **what the Spec's invariant clauses compare.**  For a connected valid symbol (dim ≥ 1) on which
+    the model returns `f`, the two presentations whose abelianisation, subgroup counts and order
+    the driver compares — `simplify ⟨n, f.relators⟩` and `simplify (textbook (gOf ds))` — present
+    isomorphic groups.  So for the model these clauses hold by theorem (every isomorphism invariant
+    agrees); evaluated on the implementation's output they remain pure checks of the code. -/
+theorem spec_compares_isomorphic_groups (ds : DSymData) (hs : ValidSym ds) (hdim : 1 ≤ ds.dim)
+    (hsize : 1 ≤ ds.size) (hc : ds.view.isConnected = true) (f : FundGroup)
+    (hf : fundamentalGroup ds = .ok f) :
+    Nonempty (
+      PresentedGroup (MRel (SpecC09.simplify ⟨f.nrGenerators, f.relators⟩).ngens
+        (SpecC09.simplify ⟨f.nrGenerators, f.relators⟩).rels) ≃*
+      PresentedGroup (MRel (SpecC09.simplify (SpecC09.textbook (gOf ds))).ngens
+        (SpecC09.simplify (SpecC09.textbook (gOf ds))).rels)) := by
+  obtain ⟨e1⟩ := simplify_returned hf
+  obtain ⟨e2⟩ := simplify_textbook hs hsize
+  have hbfs := spanTree_length hs.set hsize hc
+  exact ⟨(e1.symm.trans ((specTextbookIso hs hsize hc hbfs).trans (presIso hs hdim hf)).symm).trans e2⟩
+
+example : ValidSym (DSymData.ofSimple ex2) ∧ 1 ≤ (DSymData.ofSimple ex2).dim ∧
+    1 ≤ (DSymData.ofSimple ex2).size ∧ (DSymData.ofSimple ex2).view.isConnected = true :=
+  ⟨ex2_validSym, by decide, by decide, by decide +kernel⟩
 
 end DSymVerif.C09
